@@ -300,7 +300,10 @@ class Path(PathRun):
                 self.block(s.orelse)
                 return
         saved_ghost = self.ghost.get(idxname)
+        saved_it = self.ghost.get('_it')
         self.ghost[idxname] = V(z3.IntVal(0), TInt)
+        if lst0 is not None:
+            self.ghost['_it'] = lst0
         pre = st.snapshot()
         pre_locs = dict(fr.locs)
         self.ghost['_pre_loop'] = pre
@@ -327,9 +330,11 @@ class Path(PathRun):
         i = ex.fresh('idx', TInt)
         st.assume(i.t >= 0)
         self.ghost[idxname] = i
-        self.assume_invs(invs, pre, pre_locs)
         if for_node is not None:
             lst = get_list() if live else lst0
+            self.ghost['_it'] = lst
+        self.assume_invs(invs, pre, pre_locs)
+        if for_node is not None:
             ln = ex.list_len(lst)
             st.assume(i.t <= ln)
             more = i.t < ln
@@ -357,6 +362,8 @@ class Path(PathRun):
             self.block(s.orelse)
         if saved_ghost is not None:
             self.ghost[idxname] = saved_ghost
+        if saved_it is not None:
+            self.ghost['_it'] = saved_it
         self.ghost['_last_idx'] = self.ghost.get(idxname)
 
     def check_invs(
@@ -542,7 +549,7 @@ class Path(PathRun):
 
     # ------------------------------------------------------------------ specs
     def spec(self, text: str, loop: bool = False) -> Any:
-        node = ast.parse(text.strip(), mode='eval').body
+        node = ast.parse('(' + text.strip() + '\n)', mode='eval').body
         was = self.spec_mode
         if not was:
             self.spec_mode = 1
@@ -708,6 +715,7 @@ def run_one(
     fr = Frame(qual, cls, defcls, locs)
     run.frames.append(fr)
     run.raises_ok = list(c.raises)
+    run.env = dict(c.env)
     run.entry_locs = dict(locs)
     try:
         for r in c.requires:
